@@ -128,7 +128,10 @@ Fixpoint all2 {A B} (f : A -> B -> bool) (a : list A) (b : list B) : bool :=
 
 Definition case_ok (c : case) : bool :=
   match c with
-  | Case suffix ct max sha_tbl ps_tbl db ops => all2 (step_ok max sha_tbl ps_tbl) ops (model_run c)
+  | Case suffix ct max sha_tbl ps_tbl db ops =>
+      all2 (step_ok max sha_tbl ps_tbl) ops (model_run c) &&
+      (* every recorded Set satisfies the golibs size condition on the model's cache *)
+      run_fits (sha_of sha_tbl) (ps_of ps_tbl) suffix (ct * ns_sec) max (map (to_op db) ops) (0, [])
   | CaseVia suffix sha_tbl ps_tbl db spelled q b =>
       let name := caller_name spelled in
       let out := snd (check_host (sha_of sha_tbl) (ps_of ps_tbl) suffix (3600 * ns_sec)
